@@ -209,6 +209,16 @@ func runScenario(si int, s Scenario) scenResult {
 	// "... or when its context expires, whichever is first": when Shutdown ran into its
 	// context, unanswered requests and open connections are legitimate
 	expired := took >= time.Duration(s.CtxTimeoutS)*time.Second-300*time.Millisecond
+	if expired {
+		// ... but only when the server really was busy until then: if the last handler
+		// finished well before the context expired, nothing legitimate was left to wait for
+		d.mu.Lock()
+		busyUntilEnd := !d.last.IsZero() && d.last.After(t0.Add(time.Duration(s.CtxTimeoutS)*time.Second-time.Second))
+		d.mu.Unlock()
+		if !busyUntilEnd {
+			expired = false
+		}
+	}
 	// give the connections a moment to deliver what was written before the close
 	time.Sleep(150 * time.Millisecond)
 	d.mu.Lock()
